@@ -97,6 +97,12 @@ Proof.
     destruct (0 <? shuffle); [apply rr_result_perm; auto | apply Permutation_refl]. }
   unfold spec. destruct hp; [apply Permutation_map|]; exact E.
 Qed.
+
+(** one pass of as_numpy_iterator_rust *)
+Theorem anr_ordered hp paths : anr path ex read process pickA permA 0 hp paths = spec hp paths.
+Proof. unfold anr, spec. rewrite common_paths_ordered. destruct hp; reflexivity. Qed.
+Theorem anr_exactly_once shuffle hp paths : paths <> [] -> Permutation (anr path ex read process pickA permA shuffle hp paths) (spec hp paths).
+Proof. intros Hne. unfold anr. apply (spec_perm hp _ paths (common_paths_perm shuffle paths Hne)). Qed.
 End P.
 
 Lemma unshuffled_in_order (path ex : Type) (read : path -> list ex) (process : ex -> ex) pickA permA pickB permB pool_perm hp paths :
